@@ -355,6 +355,18 @@ def main(argv=None):
             print(f"[{ctx.pid}] replay passed")
             return 0
         mod.run(ctx)
+        # seconds-long replay tier: saved (shrunk) cases of earlier findings, bypassing the generators
+        rdir = os.path.join(ROOT, "regress", args.pid)
+        if os.path.isdir(rdir) and not args.part:
+            for name in sorted(os.listdir(rdir)):
+                if name.endswith(".json"):
+                    with open(os.path.join(rdir, name)) as fh:
+                        data = json.load(fh)
+                    before = len(ctx.violations)
+                    mod.replay(ctx, data["replay"])
+                    ctx.cls("regress-replayed")
+                    for v in ctx.violations[before:]:
+                        v["message"] = f"[regression {name}] " + v["message"]
     except Exception:
         traceback.print_exc()
         ctx.error("uncaught exception in check driver:\n" + traceback.format_exc())
